@@ -146,6 +146,11 @@ theorem c10_rule_full_is_false_no_event :
 
 /-! ### structure of the result -/
 
+theorem getLastD_cons_snoc (a n d : Nat) (l : List Nat) : (a :: (l ++ [n])).getLastD d = n := by
+  have : a :: (l ++ [n]) = (a :: l) ++ [n] := rfl
+  rw [this, List.getLastD_eq_getLast?, List.getLast?_append]
+  simp
+
 theorem pairwise_lt_strictInc : ∀ (l : List Nat), l.Pairwise (· < ·) → strictIncNat l = true := by
   intro l
   induction l with
@@ -208,7 +213,7 @@ theorem c10_events_strict (ts : List Int) (vals : List V) (e0 : Int) (es : List 
       exact hlt p hp
     · rw [w3, hc, new_ev]; simp
   · rw [hc, new_ev]; simp
-  · rw [hc]; simp [Cat.numDumps, new_ev, List.getLastD, List.getLast?_cons, List.getLast?_append]
+  · rw [hc]; simp only [Cat.numDumps, new_ev, List.map_cons, List.cons_append]; exact getLastD_cons_snoc _ _ _ _
   · rw [h3.perDump]; simp [hrlen]
   · rw [h3.perDump]; intro x hx; simp only [List.mem_map] at hx; obtain ⟨y, _, rfl⟩ := hx; simp
 
@@ -231,12 +236,13 @@ theorem c10_no_repeats (ts : List Int) (vals : List V) (e0 : Int) (es : List Int
   intro i x y hx hy
   rw [hc, new_values, List.getElem?_map] at hx hy
   cases ha : (((v, 0) :: Pt).map (·.1))[i]? with
-  | none => simp [ha] at hx
+  | none => rw [ha] at hx; simp at hx
   | some a =>
     cases hb : (((v, 0) :: Pt).map (·.1))[i + 1]? with
-    | none => simp [hb] at hy
+    | none => rw [hb] at hy; simp at hy
     | some b =>
-      simp only [ha, hb, Option.map_some, Option.some.injEq] at hx hy
+      rw [ha] at hx; rw [hb] at hy
+      simp only [Option.map_some, Option.some.injEq] at hx hy
       subst hx hy
       have := hrep rfl i a b ha hb
       simpa using this
